@@ -122,6 +122,17 @@ func msgsOf(ids []int) [][]byte {
 	return out
 }
 
+// withSentinel returns the messages as a slice that has one more element of capacity holding a sentinel, and a
+// function telling whether that element beyond the slice was left alone (a callee must not append into the caller's
+// backing array).
+func withSentinel(msgs [][]byte) ([][]byte, func() bool) {
+	buf := make([][]byte, len(msgs)+1)
+	copy(buf, msgs)
+	buf[len(msgs)] = []byte("c17-sentinel")
+
+	return buf[:len(msgs)], func() bool { return string(buf[len(msgs)]) == "c17-sentinel" }
+}
+
 // party abstracts the implementation under test (primitive or Tink-backed service).
 type party interface {
 	sign(msgs [][]byte) ([]byte, error)
@@ -282,12 +293,21 @@ func runCaseOpt(kind string, c *Case, tr *hx.Trace, withCoq bool) {
 	obs.SignVerify, _ = fenced(func() error {
 		var err error
 
-		sig, err = p.sign(msgs)
+		sm, okS := withSentinel(msgs)
+
+		sig, err = p.sign(sm)
 		if err != nil {
 			return err
 		}
 
-		return p.verify(msgs, sig)
+		vm, okV := withSentinel(msgs)
+		err = p.verify(vm, sig)
+
+		if !okS() || !okV() {
+			fail("caller-slice-modified", "SignMulti/VerifyMulti wrote into the caller's message slice beyond its length")
+		}
+
+		return err
 	})
 	if obs.SignVerify != vAccept {
 		fail("sign-verify-"+obs.SignVerify, "a fresh signature over the vector does not verify")
@@ -383,7 +403,12 @@ func runCaseOpt(kind string, c *Case, tr *hx.Trace, withCoq bool) {
 	obs.Derive, dd = fenced(func() error {
 		var err error
 
-		proof, err = p.derive(msgs, sig, nonce, append([]int{}, c.R...))
+		dm, okD := withSentinel(msgs)
+		proof, err = p.derive(dm, sig, nonce, append([]int{}, c.R...))
+
+		if !okD() {
+			fail("caller-slice-modified", "DeriveProof wrote into the caller's message slice beyond its length")
+		}
 
 		return err
 	})
@@ -548,7 +573,13 @@ func runCaseOpt(kind string, c *Case, tr *hx.Trace, withCoq bool) {
 			}
 		}
 
-		v, d := fenced(func() error { return p.verifyProof(msgsOf(supplied), pf, nn, other) })
+		vm, okP := withSentinel(msgsOf(supplied))
+		v, d := fenced(func() error { return p.verifyProof(vm, pf, nn, other) })
+
+		if !okP() {
+			fail("caller-slice-modified", "VerifyProof wrote into the caller's message slice beyond its length")
+		}
+
 		vs[i] = v
 		obs.Details = append(obs.Details, d)
 
